@@ -217,7 +217,7 @@ Section Dec.
     let rendered_ok :=
       match S with
       | None => true
-      | Some s => cv_eqb (if kind =? 1 then render_v1 s else render_v2 s omit) parsed
+      | Some s => cv_equiv (if kind =? 1 then render_v1 s else render_v2 s omit) parsed
       end in
     let m := configure (fun _ => gl) wst parsed in
     pret (rendered_ok && agrees true m obs && agrees false (normalize_res m) nobs).
